@@ -27,6 +27,9 @@ def run(ctx, sess):
     ctx.rule('C11.9', '"including all that share the same timestamp": the index-entry selection of jls_core_ts_seek either probes the entries in index order, or (any other search order, e.g. bisection) never leaves the search on an entry that is only known to equal the requested timestamp (the orderings <, =, > of the probed entry are tracked along the selection loop)')
     ctx.rule('C11.10', '"negative/offset ids": no annotation is refused because of the value of its timestamp: in jls_wr_annotation, jls_wr_ts_anno, jls_twr_annotation and the helpers they hand the timestamp to, no error return is control dependent on a condition over the timestamp - except an order check against the previous timestamp whose remembered value starts at INT64_MIN')
     ctx.rule('C11.12', 'upper index levels are keyed by the index below: in the time-series commit the timestamp stored into an entry of the level above is read from an index entry (struct jls_index_entry_s) of the level being committed - the entries that were just written as its INDEX chunk - not from its summary, whose entries are not carried upward at close')
+    ctx.rule('C11.13', 'an annotation is delivered from the chunk just read: the annotation reader uses bytes of the read buffer only after a successful checked read on the same path, and through the buffer pointer as it is after that read (shared with C04.8) - a pointer taken before a read that can grow the buffer is stale')
+    ctx.rule('C11.14', 'on an index entry equal to the requested timestamp the seek steps back one entry at every index level above 1 (the level condition of the step is evaluated for levels 2..15): the chunk before may end with the same timestamp')
+    ctx.rule('C11.15', 'close writes every level: jls_wr_ts_close commits each index level 1..JLS_SUMMARY_LEVEL_COUNT-1 itself (a level that is empty returns early and cannot be relied upon to pass the close on to the levels above)')
     ctx.rule('C11.6', 'INDEX is immediately followed by its SUMMARY in the time-series writer')
     w = P.fn('jls_wr_annotation')
     r = P.fn('jls_core_annotations')
@@ -155,6 +158,11 @@ def run(ctx, sess):
     seek_first_equal_rule(ctx, P, 'C11.9')
     no_timestamp_rejection_rule(ctx, P, 'C11.10')
     upper_key_rule(ctx, P, 'C11.12')
+    step_back_rule(ctx, P, 'C11.14')
+    close_levels_rule(ctx, P, 'C11.15')
+    from .c04 import _freshness
+    from .common import exceptions
+    _freshness(ctx, P, exceptions('C04'), rule='C11.13', only=lambda n: 'annotation' in n, minimum=1)
 
 
 def pending_index_rule(ctx, P, rule, files):
@@ -467,3 +475,78 @@ def upper_key_rule(ctx, P, rule):
                    'first entry of this level\'s index' if (from_index and first) else
                    'the key is %s (record %s): at close a level that was filled only by the close-time propagation has index entries but no summary entries, so the level above is keyed by a stale value and seeks descend into the wrong chunk' % (show(r0)[:50], src_rec))
     ctx.floor('keys propagated to an upper index level', n, 1)
+
+
+def step_back_rule(ctx, P, rule):
+    """on an entry equal to the requested timestamp the search steps back at every index level above 1"""
+    from ..fd import FD, Top
+    fn = P.fn('jls_core_ts_seek')
+    fd = FD(P)
+    # the equality compare of an entry timestamp with the requested one
+    eqs = []
+    for b in fn.blocks.values():
+        c = strip_casts(b.cond) if b.cond is not None else None
+        if c is not None and c.get('op') == 'bin' and c['o'] == '==' and any(m.get('op') == 'member' and m.get('field') == 'timestamp' for m in walk(c)) and \
+                any(m.get('op') == 'ref' and m.get('name') == 'timestamp' for m in walk(c)):
+            eqs.append(b)
+    if not eqs:
+        # a search that never tests equality (lower bound) has its own step after the loop; C11.9 covers the selection
+        ctx.ob(rule, True, fn.name, 'step back on an equal entry', fn.where(), 'the selection has no equality arm (lower-bound search)')
+        return
+    n = 0
+    for b in eqs:
+        decs = [ev for ev in fn.stores() if ev.store_parts()[2] in ('pre--', 'post--') and (b.id, 'T') in control_deps_transitive(fn, ev.block.id)]
+        n += 1
+        if not decs:
+            ctx.ob(rule, False, fn.name, 'step back on an equal entry', b.events[-1].where() if b.events else fn.where(),
+                   'no step back on the equal edge: the chunk before may end with the same timestamp')
+            continue
+        for d in decs:
+            bad = None
+            for (bid, label) in control_deps_transitive(fn, d.block.id):
+                c = strip_casts(fn.blocks[bid].cond) if fn.blocks[bid].cond is not None else None
+                if c is None or bid == b.id:
+                    continue
+                lv = [m.get('name') for m in walk(c) if m.get('op') == 'ref' and (m.get('name') or '').startswith('lvl')]
+                if not lv:
+                    continue
+                for L in range(2, 16):
+                    try:
+                        v = fd.ev(fn, c, {lv[0]: L})
+                    except (Top, ZeroDivisionError):
+                        continue
+                    if bool(v) != (label == 'T'):
+                        bad = (show(c), L)
+                        break
+            ctx.ob(rule, bad is None, fn.name, 'step back on an equal entry', d.where(),
+                   'taken at every index level above 1' if bad is None else
+                   'the step back is taken only while %s, which is false at level %d: a run of equal timestamps that straddles a chunk boundary of the level below that one is entered after its first members' % bad)
+    ctx.floor('equality arms of the time-series seek', n, 1)
+
+
+
+def close_levels_rule(ctx, P, rule):
+    fn = P.fn('jls_wr_ts_close')
+    ctx.saw(fn)
+    commits = [c for c in fn.calls() if c.callee in P.functions and P.functions[c.callee].file == fn.file and
+               any(c2.callee == 'jls_core_wr_index' for c2 in P.functions[c.callee].calls())]
+    if not commits:
+        raise AnalysisBroken('jls_wr_ts_close: no commit call')
+    for c in commits:
+        a = strip_casts(c.args[1]) if len(c.args) > 1 else None
+        ok = False
+        why = 'level argument %s' % (show(a) if a is not None else '?')
+        if a is not None and a.get('op') == 'ref' and a.get('rk') == 'local':
+            v = a['name']
+            inc = [ev for ev in fn.stores() if strip_casts(ev.store_parts()[0]).get('name') == v and ev.store_parts()[2] in ('pre++', 'post++')]
+            bound = [b for b in fn.blocks.values() if b.cond is not None and strip_casts(b.cond).get('op') == 'bin' and strip_casts(b.cond)['o'] in ('<', '<=') and
+                     strip_casts(strip_casts(b.cond)['k'][0]).get('name') == v and const_of(strip_casts(b.cond)['k'][1]) is not None]
+            init = [ev for ev in fn.events() if ev.k == 'decl' and ev.name == v and ev.e is not None and const_of(ev.e) == 1]
+            count = P.enum_consts.get('JLS_SUMMARY_LEVEL_COUNT') if hasattr(P, 'enum_consts') else None
+            if inc and bound and init:
+                hi = const_of(strip_casts(bound[0].cond)['k'][1])
+                hi = hi - 1 if strip_casts(bound[0].cond)['o'] == '<' else hi
+                ok = count is None or hi >= count - 1
+                why = 'levels 1..%d' % hi
+        ctx.ob(rule, ok, fn.name, 'commit of every level at close', c.where(),
+               why if ok else 'close commits %s only: when that level is empty (the number of entries is a multiple of the decimation factor) the commit returns at once and the pending entries of the levels above are never written - the upper indexes miss their last chunk' % why)
